@@ -20,6 +20,12 @@ CHECKS = {
         note="Reference = tokenize.generate_tokens of the running CPython 3.12; reference tokens whose coordinates contradict their own text (a CPython bug after non-ASCII text) are excluded and counted.",
         ref="DESIGN.md §4 C09",
     ),
+    "C18": dict(
+        technique="property-based testing over size-parameterised input families with deterministic work counters (token reads/peeks/resets of a counting Tokenizer subclass): fixed families from the grammar's recursion structure + Hypothesis-drawn wrapper mixtures, valid and invalid; linear bound and doubling-ratio oracle",
+        text="Exploration: each family is instantiated at doubling sizes and must satisfy work <= 3000*tokens+20000 and work(2n)/work(n) <= 2.6; no wall-clock is involved so verdicts are reproducible. Decides linearity only for the families generated. Held except the listed finding D42 (quadratic on rejected nested subprocesses).",
+        note="Work is proxied by tokenizer-level counters. The pattern language and thresholds are mine (pinned tree needs 100-600 operations per token).",
+        ref="DESIGN.md §4 C18",
+    ),
     "C08": dict(
         technique="property-based testing: generated and mutated texts (Hypothesis-driven grammar, corpus, mutation, soup) against a pure tiling oracle over (text, token list)",
         text="Exploration: every generated text the tokenizer finishes on is checked against an oracle that needs nothing but the text and the token list (slice equality, order, gap shape, NEWLINE/INDENT/DEDENT/ENDMARKER structure). Held on everything generated; no proof.",
